@@ -53,6 +53,8 @@ def check_fetch(facts):
     pre = bv.ule(pc0, bv.const(0xFFFFE8, 32))
     nret = 0
     for o in outs:
+        if any(t_ in o.state.tags for t_ in ("opaque-switch", "opaque-assert", "unknown-callee", "unwrap-opaque")):
+            raise RuntimeError("imprecise trace (%r): not decidable" % (o.state.tags,))
         care = bv.M.AND(o.state.pc, pre)
         if care == 0:
             continue
@@ -122,6 +124,8 @@ def check_interrupt(facts):
         ob[1] += 1 if ok else 0
     nok = 0
     for o in outs:
+        if any(t_ in o.state.tags for t_ in ("opaque-switch", "opaque-assert", "unknown-callee", "unwrap-opaque")):
+            raise RuntimeError("imprecise trace (%r): not decidable" % (o.state.tags,))
         care = bv.M.AND(o.state.pc, pre)
         if care == 0:
             continue
@@ -213,6 +217,8 @@ def check_access_helpers(facts):
         total = 0
         nok = 0
         for o in outs:
+            if any(t_ in o.state.tags for t_ in ("opaque-switch", "opaque-assert", "unknown-callee", "unwrap-opaque")):
+                raise RuntimeError("imprecise trace (%r): not decidable" % (o.state.tags,))
             care = o.state.pc
             if care == 0:
                 continue
